@@ -1091,6 +1091,9 @@ func (m *obsModel) checkJoin(e *logEntry, in *irc.Message, actor *ircserver.Veri
 	if hasI && !invited {
 		bad("join-invite-only-uninvited", "joined invite-only channel %s without an invitation", ck)
 	}
+	if hasX && !invited {
+		m.r.res.Add("joins_through_captcha_gate_judged", 1)
+	}
 	if hasX && !invited && !captchaOK {
 		bad("join-captcha-missing", "joined captcha-protected channel %s without invitation or valid captcha (token %q)", ck, trunc(key, 60))
 	}
